@@ -45,10 +45,12 @@ def history_lines(ctx):
     th = ctx.thorough()
     lines = []
     # (scenario, steps, datapack, treepack, max_faults)
-    plan = [(0, 5, 6000, 700, 150), (1, 6, 20000, 1, 100), (2, 4, 20000, 1, 100), (0, 7, 3000, 1, 150), (3, 3, 6000, 700, 150)]
+    plan = [(0, 5, 6000, 700, 90), (rng.choice([1, 2]), 5, 20000, 1, 60), (0, 7, 3000, 1, 90), (3, 3, 6000, 700, 70),
+            (4, rng.choice([3, 4, 5]), 20000, 20000, 90), (5, rng.choice([3, 4]), 20000, 20000, 90)]
     if th:
         plan = [(0, 6, 6000, 700, 0), (1, 8, 20000, 1, 0), (2, 6, 20000, 1, 0), (0, 8, 3000, 1, 0),
-                (0, 9, 12000, 2000, 0), (0, 5, 1, 1, 800), (1, 10, 1, 1, 800), (0, 10, 8000, 300, 600), (0, 12, 5000, 100, 600), (3, 3, 6000, 700, 0), (3, 5, 3000, 1, 600)]
+                (0, 9, 12000, 2000, 0), (0, 5, 1, 1, 800), (1, 10, 1, 1, 800), (0, 10, 8000, 300, 600), (0, 12, 5000, 100, 600), (3, 3, 6000, 700, 0), (3, 5, 3000, 1, 600),
+                (4, 3, 20000, 20000, 0), (4, 5, 20000, 700, 0), (4, 4, 3000, 1, 0), (5, 3, 20000, 20000, 0), (5, 5, 4000, 700, 0)]
     for (sc, steps, dp, tp, mf) in plan:
         lines.append("%d %d %d %d %d %d 1" % (rng.randint(1, 10 ** 9), sc, steps, dp, tp, mf))
     return lines
@@ -196,6 +198,14 @@ def run(ctx):
             m = model_res.get(id(f))
             if clean and not rest_ok:
                 viol.append(("check --read-data reports no error but a snapshot does not restore correctly after damage (%s of a %s file)" % (kind, F.get("file")), wit, classify(F, m), False))
+            cyc = F.get("cycle", "-")
+            if cyc != "-":
+                bump("nm_cycle_" + ("ok" if cyc == "ok" else "missed"))
+                if cyc != "ok":
+                    # with a blob stored twice every run's index may answer with the other copy: the open finding
+                    sig = "duplicate-blob-copy-unverified" if (m is not None and m.get("nodup") == "0") else None
+                    viol.append(("a full read performed as the documented cycle IdSubSet((1,m))..((m,m)) (m = %s) reports nothing in any run although the plain full check reports the damage and restore fails" % cyc.split(":", 1)[1],
+                                 {**wit, "cycle": cyc}, sig, False))
             if m is not None:
                 ndumped += 1
                 if m["nodup"] == "1": nodup_true += 1
